@@ -44,6 +44,12 @@ prop("C13", claimed=True, level="model_checking", engine="E-SEQ (explicit-state)
      note="Program length, designated states and the corpus are bounded; seek_danger is only issued with targets >= doc() and strictly increasing candidates (targets below doc(), as Exclude issues them, are covered by C03); SeekDangerResult is decoded from its Debug rendering because the crate does not export it.",
      design_ref="3/C13")
 
+prop("C06", claimed=True, level="model_checking", engine="E-SEQ",
+     technique="bounded-exhaustive enumeration of segment shapes x key assignments x (limit, offset) windows, and of structured pruning corpora x queries x K, against the exhaustive ranking of a non-pruning collector on the same searcher",
+     text="Tie family: every shape of <= 3 segments x <= 3 documents (thorough 4 x 5), every assignment of keys over {0,1} / {0,1,2} (custom keys through tweak_score; relevance ties; u64 / i64 / f64 / date / string fast fields with missing values, both orders), single- and multi-threaded: every limit 1..5 x offset 0..5 window equals the slice of the complete list ordered by (key, ascending address). Pruning family: 450-document corpora (periodic tf / length patterns, a hot document at every block-boundary position, tf 300, flat corpora, 1-2 segments, avgdl-shifting segment) x 12 queries (term; unions / intersections of 2-4 terms; required-optional; generic; msm; boosted) x K in {1,2,3,10,500}; plus the 4x4x4 (tf, length) alphabet family around a block boundary.",
+     note="Corpus families and K are bounded; multi-clause scores compared within 4 ulp per clause; the placement of documents without a sort value must only be consistent.",
+     design_ref="3/C06")
+
 ALL = ["C%02d" % i for i in range(1, 21)]
 REASON_TODO = "check not built yet in this revision of /verif (design in DESIGN.md section 3); will be claimed when its engine lands"
 
